@@ -58,6 +58,10 @@ def search(ctx):
                 continue
             ctx.violation('into_bench.raises', f'into_bench raised {r["err"]}', input={'c': j})
             continue
+        from props.evalcommon import json_is_cyclic
+        if json_is_cyclic(r):
+            ctx.violation('into_bench.not_wellformed', 'converted circuit is cyclic', input={'c': j})
+            continue
         todo.append((j, r))
         if r['inputs'] != j['inputs'] or r['outputs'] != j['outputs']:
             ctx.violation('into_bench.interface', 'inputs/outputs changed', input={'c': j})
